@@ -143,3 +143,49 @@ def _replay_package(model, contract):
 for _k, _c in CONTRACTS.items():
     if "SpendingPackageAdjustment" in _k:
         _c["replay_hook"] = _replay_package
+
+
+# ---- bounds of one adjustable and the start-of-optimisation check (C14: "constraints that are impossible from the outset are reported
+# before optimization starts"; C15: "adjusted values all lie within the bounds given")
+def _env_adjustable(limit_type, lower_none, upper_none):
+    def make(it):
+        from pyvc.interp import PyObjV
+        from pyvc import source
+
+        lo, hi = z3.Real("lower"), z3.Real("upper")
+        self = PyObjV("Adjustable", source.load("optimization"), {"name": "a", "limit_type": limit_type, "lower_bound": None if lower_none else lo,
+                                                                 "upper_bound": None if upper_none else hi, "initial_value": None})
+        return {"self": self, "lo": lo, "hi": hi}
+
+    return make
+
+
+for _lt in ("abs", "rel"):
+    CONTRACTS["optimization:Adjustable.get_hard_bounds#%s" % _lt] = dict(
+        schema=schema, make_env=_env_adjustable(_lt, False, False), params={"x0": "real"},
+        ensures=[("C14+C15.bounds_are_absolute_or_relative_to_the_initial_value",
+                  "result[0] == (lo if %r == 'abs' else x0 * lo) and result[1] == (hi if %r == 'abs' else x0 * hi)" % (_lt, _lt))],
+        defined_props=["C14", "C15"])
+
+
+def _env_init_check(it):
+    from pyvc.interp import PyObjV
+    from pyvc.core import LArr
+    from pyvc import source
+
+    om = source.load("optimization")
+    lo, hi, x = z3.Real("lower"), z3.Real("upper"), z3.Real("x_init")
+    adjustable = PyObjV("Adjustable", om, {"name": "a", "limit_type": "abs", "lower_bound": lo, "upper_bound": hi, "initial_value": None})
+    adjustment = PyObjV("Adjustment", om, {"name": "adj", "adjustables": [adjustable]})
+    return {"adjustable": adjustable, "adjustment": adjustment, "ptr": 0, "x0": LArr(1, lambda i: x), "xmin": LArr(1, lambda i: 0.0), "xmax": LArr(1, lambda i: 0.0),
+            "lo": lo, "hi": hi, "x": x, "self": None, "progset": None, "instructions": None}
+
+
+CONTRACTS["optimization:Optimization.get_initialization#bounds_check"] = dict(
+    schema=schema, fragment={"iter": "adjustment.adjustables"}, make_env=_env_init_check,
+    raises={"InvalidInitialConditions": "x > hi or x < lo"}, raises_props=["C14", "C15"],
+    ensures=[
+        ("C14+C15.accepted_initial_value_lies_within_its_bounds", "lo <= x and x <= hi"),
+        ("C14+C15.bounds_are_recorded_for_the_optimiser", "xmin[0] == lo and xmax[0] == hi and ptr == 1"),
+    ],
+    defined_props=["C14", "C15"])
